@@ -24,7 +24,7 @@ ASSUMPTIONS = ["only truly empty lines are generated as blank lines (whitespace-
 
 def budget(tier):
     if tier == "quick":
-        return {"runs": 4000, "wall": 45, "chunk": 10}
+        return {"runs": 3000, "wall": 75, "chunk": 10}
     return {"runs": 120000, "wall": 1200, "chunk": 10}
 
 
@@ -62,7 +62,9 @@ def gen(rng, tier):
         for _ in range(rng.randint(0, 4)):
             items.append(["j", rng.choice(junk)])
     return {"fmt": fmt, "items": items, "checklines": rng.choice([0, 1, 2, 3, 10]), "form": rng.choice(["path", "string"]),
-            "passes": rng.choice([1, 1, 2]), "end": rng.choice(["exit", "crash", "exit"]), "second_handle": rng.random() < 0.4}
+            "passes": rng.choice([1, 1, 2]), "end": rng.choice(["exit", "crash", "exit"]), "second_handle": rng.random() < 0.4,
+            "abandon": rng.choice([None, None, 0, 1, 2]), "update_after": rng.random() < 0.4,
+            "locked_at": rng.choice([None, None, None, 0, 1, 2, 3, 4, 5, 6])}
 
 
 def expected(items):
@@ -112,7 +114,11 @@ def run(case):
         n = w.node()
         spec = {"form": case["form"], "text": text, "name": "in.gff"}
         # 1. the iterator itself
-        r = call(n, {"op": "dataiter", "data": spec, "kw": {"checklines": cl}, "passes": case["passes"]})
+        rq = {"op": "dataiter", "data": spec, "kw": {"checklines": cl}, "passes": case["passes"]}
+        if case.get("abandon") is not None:
+            rq["abandon"] = case["abandon"]
+            probes["abandoned_pass_collected_after_full_pass"] = 1
+        r = call(n, rq)
         if not r["ok"]:
             V.append(viol("C14.iter", "iterating the input raised %s: %s" % (r["exc"], r["msg"]), kind="iter_failed", exc=r["exc"]))
         else:
@@ -128,16 +134,37 @@ def run(case):
                     break
         # 2. import and persistence
         if not V:
-            r = call(n, {"op": "create", "h": "h", "db": "a.db", "data": spec, "kw": {"checklines": cl, "merge_strategy": "create_unique", "disable_infer_genes": True,
-                                                                                     "disable_infer_transcripts": True}})
+            ckw = {"checklines": cl, "merge_strategy": "create_unique", "disable_infer_genes": True, "disable_infer_transcripts": True}
+            creq = {"op": "create", "h": "h", "db": "a.db", "data": spec, "kw": ckw}
+            if case.get("locked_at") is not None:
+                # 'database is locked' at one commit of the import: the call may fail (then a forced re-import must
+                # be right) or succeed (then the directives must be exact) - never store a directive twice
+                creq["faults"] = [{"kind": "commit", "nth": case["locked_at"], "mode": "locked"}]
+            r = call(n, creq)
+            if not r["ok"] and r.get("injected"):
+                probes["import_failed_on_locked_commit"] = 1
+                call(n, {"op": "gc"})
+                r = call(n, {"op": "create", "h": "h", "db": "a.db", "data": spec, "kw": dict(ckw, force=True)})
+            elif r["ok"] and r.get("fired"):
+                probes["import_survived_locked_commit"] = 1
             if not r["ok"]:
                 V.append(viol("C14.db", "create_db raised %s: %s" % (r["exc"], r["msg"]), kind="create_failed", exc=r["exc"]))
             else:
                 d = call(n, {"op": "dump", "h": "h", "relations": False})
-                views = [("returned handle", d)]
+                views = [("returned handle", d, len(flines))]
                 if case["second_handle"]:
                     call(n, {"op": "open", "h": "h2", "db": "a.db"})
-                    views.append(("second handle", call(n, {"op": "dump", "h": "h2", "relations": False})))
+                    views.append(("second handle", call(n, {"op": "dump", "h": "h2", "relations": False}), len(flines)))
+                if case.get("update_after"):
+                    # a later update() must not disturb the stored directives (checked by the fresh process below)
+                    uline = ('chr1\tsrc\texon\t3\t9\t.\t+\t.\tID=upd1' if case["fmt"] == "gff3" else
+                             'chr1\tsrc\texon\t3\t9\t.\t+\t.\tgene_id "UG"; transcript_id "UT";')
+                    ur = call(n, {"op": "update", "h": "h", "data": {"form": "string", "text": uline + "\n"},
+                                  "kw": {"merge_strategy": "create_unique", "make_backup": False, "disable_infer_genes": True,
+                                         "disable_infer_transcripts": True}})
+                    if ur["ok"]:
+                        flines = flines + [uline]
+                        probes["update_between_import_and_reopen"] = 1
                 if case["end"] == "crash":
                     try:
                         call(n, {"op": "gc", "faults": []})
@@ -149,9 +176,9 @@ def run(case):
                     n.close()
                 o = w.node()
                 call(o, {"op": "open", "h": "o", "db": "a.db"})
-                views.append(("fresh process", call(o, {"op": "dump", "h": "o", "relations": False})))
+                views.append(("fresh process", call(o, {"op": "dump", "h": "o", "relations": False}), len(flines)))
                 o.close()
-                for name, v in views:
+                for name, v, nexp in views:
                     if not v["ok"]:
                         V.append(viol("C14.db", "%s: reading failed %s %s" % (name, v["exc"], v["msg"]), kind="read_failed"))
                         break
@@ -161,8 +188,8 @@ def run(case):
                         V.append(viol("C14.db", "%s: db.directives = %r, expected %r (checklines=%d)" % (name, got, dirs, cl),
                                       kind="db_directives", lost=bool(lost), extra=bool([x for x in got if x not in dirs]) and not lost))
                         break
-                    if len(v["dump"]["features"]) != len(flines):
-                        V.append(viol("C14.db", "%s: %d features stored, expected %d" % (name, len(v["dump"]["features"]), len(flines)),
+                    if len(v["dump"]["features"]) != nexp:
+                        V.append(viol("C14.db", "%s: %d features stored, expected %d" % (name, len(v["dump"]["features"]), nexp),
                                       kind="db_feature_count"))
                         break
                 raw = logical(raw_dump(w.p("a.db")))
